@@ -148,3 +148,47 @@ Theorem proxy_spec lazy wrl limit batch scripts :
 Proof.
   intros Hlim Hok Hin. apply proxy_spec_given_merge; try assumption. apply losertree_min_run.
 Qed.
+
+Lemma llt_irrefl (a : labels) : ~ llt lbl_cmp a a.
+Proof. unfold llt. rewrite (ord_refl _ lbl_ord). discriminate. Qed.
+
+Lemma ssorted_ext (l1 l2 : list labels) :
+  StronglySorted (llt lbl_cmp) l1 -> StronglySorted (llt lbl_cmp) l2 ->
+  (forall x, In x l1 <-> In x l2) -> l1 = l2.
+Proof.
+  revert l2. induction l1 as [|a r1 IH]; intros l2 H1 H2 Hin.
+  - destruct l2 as [|b r2]; [reflexivity|]. exfalso. apply (Hin b). left. reflexivity.
+  - destruct l2 as [|b r2]; [exfalso; apply (Hin a); left; reflexivity|].
+    inversion H1 as [|? ? S1 F1]; subst. inversion H2 as [|? ? S2 F2]; subst.
+    rewrite Forall_forall in F1, F2.
+    assert (a = b).
+    { destruct (proj1 (Hin a) (or_introl eq_refl)) as [E|E]; [symmetry; exact E|].
+      destruct (proj2 (Hin b) (or_introl eq_refl)) as [E2|E2]; [exact E2|].
+      exfalso. pose proof (F2 _ E) as L1. pose proof (F1 _ E2) as L2. unfold llt in *.
+      pose proof (cmp_lt_trans _ lbl_ord _ _ _ L1 L2) as L3. rewrite (ord_refl _ lbl_ord) in L3. discriminate. }
+    subst b. f_equal. apply IH; [exact S1 | exact S2|].
+    intros x. split; intros Hx.
+    + destruct (proj1 (Hin x) (or_intror Hx)) as [E|E]; [|exact E]. subst x. exfalso. exact (llt_irrefl a (F1 _ Hx)).
+    + destruct (proj2 (Hin x) (or_intror Hx)) as [E|E]; [|exact E]. subst x. exfalso. exact (llt_irrefl a (F2 _ Hx)).
+Qed.
+
+(* lazy or eager, any buffer size (not in the model), any batch size: the same label sets in
+   the same order, each with the same set of chunk keys *)
+Theorem strategy_independent lazy1 lazy2 batch1 batch2 wrl limit scripts :
+  limit <= 0 ->
+  (forall s, In s scripts -> sopen_err s = None /\ send s = EEof) ->
+  inputs_sorted lazy1 wrl scripts -> inputs_sorted lazy2 wrl scripts ->
+  exists f1 f2,
+    proxy lazy1 wrl false limit batch1 scripts = Some f1 /\ proxy lazy2 wrl false limit batch2 scripts = Some f2
+    /\ map fst (sers (unbatch f1)) = map fst (sers (unbatch f2))
+    /\ (forall X cs1 cs2, In (X, cs1) (sers (unbatch f1)) -> In (X, cs2) (sers (unbatch f2)) ->
+          forall k, In k (map ckey cs1) <-> In k (map ckey cs2)).
+Proof.
+  intros Hl Hok H1 H2.
+  destruct (proxy_spec lazy1 wrl limit batch1 scripts Hl Hok H1) as (f1 & E1 & S1 & C1 & L1 & _).
+  destruct (proxy_spec lazy2 wrl limit batch2 scripts Hl Hok H2) as (f2 & E2 & S2 & C2 & L2 & _).
+  exists f1, f2. split; [exact E1|]. split; [exact E2|]. split.
+  - apply ssorted_ext; [exact S1 | exact S2|]. intros X. rewrite L1, L2. tauto.
+  - intros X cs1 cs2 Hc1 Hc2 k. destruct (C1 _ _ Hc1) as (_ & _ & K1). destruct (C2 _ _ Hc2) as (_ & _ & K2).
+    rewrite K1, K2. tauto.
+Qed.
